@@ -15,13 +15,17 @@ VARIABLES l, failed
 TraceLog == ndJsonDeserialize("trace.ndjson")
 tvars == <<ovars, l, failed>>
 
-CheckName(i) == <<"NeverAhead", "NoNegativeDelta", "Conservation", "IdleCycleSilent", "GaugeAuthentic", "GaugeFresh",
-                  "GaugeCountBound", "ReacquireFresh", "CloseBarrier", "QuietAfterClose", "ReporterClosedOnce",
-                  "ReporterClosedAfterFlush", "TimersSynchronousOnce">>[i]
+CheckNames == <<"NeverAhead", "NoNegativeDelta", "Conservation", "IdleCycleSilent", "GaugeAuthentic", "GaugeFresh",
+                "GaugeCountBound", "ReacquireFresh", "CloseBarrier", "QuietAfterClose", "ReporterClosedOnce",
+                "ReporterClosedAfterFlush", "TimersSynchronousOnce", "NoCrash", "LoopEnded", "CloseErrorPropagated",
+                "InertAfterClose", "SameObject", "AllocateOnce">>
+CheckName(i) == CheckNames[i]
 Holds(i) == CASE i = 1 -> NeverAhead [] i = 2 -> NoNegativeDelta [] i = 3 -> Conservation [] i = 4 -> IdleCycleSilent
               [] i = 5 -> GaugeAuthentic [] i = 6 -> GaugeFresh [] i = 7 -> GaugeCountBound [] i = 8 -> ReacquireFresh
               [] i = 9 -> CloseBarrier [] i = 10 -> QuietAfterClose [] i = 11 -> ReporterClosedOnce
-              [] i = 12 -> ReporterClosedAfterFlush [] i = 13 -> TimersSynchronousOnce
+              [] i = 12 -> ReporterClosedAfterFlush [] i = 13 -> TimersSynchronousOnce [] i = 14 -> NoCrash
+              [] i = 15 -> LoopEnded [] i = 16 -> CloseErrorPropagated [] i = 17 -> InertAfterClose
+              [] i = 18 -> SameObject [] i = 19 -> AllocateOnce
 (* the invariants an event can break (each is a function of ghost state that only these events change) *)
 Relevant(r) ==
   CASE r.e = "dlv" /\ r.k = "counter" -> {1, 2, 4, 10}
@@ -29,11 +33,14 @@ Relevant(r) ==
     [] r.e = "dlv" /\ r.k = "timer"   -> {10, 13}
     [] r.e = "quiesce"  -> {3}
     [] r.e = "passe"    -> {6}
-    [] r.e = "subret"   -> {8}
-    [] r.e = "rootcloseret" -> {9}
+    [] r.e = "subret"   -> {8, 17}
+    [] r.e = "rootcloseret" -> {9, 15, 16}
     [] r.e = "flush"    -> {10}
     [] r.e = "rclose"   -> {10, 11, 12}
     [] r.e = "timerret" -> {13}
+    [] r.e = "panic" \/ r.e = "deadlock" -> {14}
+    [] r.e = "got"      -> {18}
+    [] r.e = "alloc"    -> {10, 19}
     [] OTHER -> {}
 
 TInit == ObsInit(0) /\ l = 1 /\ failed = FALSE
@@ -51,10 +58,14 @@ Apply(r) ==
     [] r.e = "flush"   -> ObsFlush
     [] r.e = "rclose"  -> ObsReporterClose
     [] r.e = "closecall" -> ObsCloseCall(r.o)
+    [] r.e = "closeret" -> ObsCloseReturn(r.o)
     [] r.e = "subcall" -> ObsSubCall(r.t)
-    [] r.e = "subret"  -> ObsSubReturn(r.t, r.o)
+    [] r.e = "subret"  -> ObsSubReturn(r.t, r.o, r.inert)
+    [] r.e = "got"     -> ObsGot(r.k, r.id, r.so, r.obj)
+    [] r.e = "alloc"   -> ObsAlloc(r.k, r.id)
+    [] r.e = "panic" \/ r.e = "deadlock" -> ObsCrash(r.e)
     [] r.e = "rootclosecall" -> ObsRootCloseCall(r.t)
-    [] r.e = "rootcloseret"  -> ObsRootCloseReturn(r.t)
+    [] r.e = "rootcloseret"  -> ObsRootCloseReturn(r.t, r.err, r.experr, r.loopended)
     [] r.e = "timercall" -> ObsTimerCall(r.t, r.id, r.v)
     [] r.e = "timerret"  -> ObsTimerReturn(r.t)
     [] OTHER -> UNCHANGED ovars        \* informational events (steps, notes)
